@@ -97,9 +97,14 @@ r = props_c04.check_file(spec(BASE[:12] + ["-- one two"] + BASE[12:]))
 comment.classify_single_line_comment = real_sl
 expect("lines: comment loses a character -> notLossless at comment + disagreement", any(f["kind"] == "notLossless" and f["site"] == "vhdlFile.classify.comment" for f in r["fails"]) and r["dis"])
 
-# 2c. the known lossy shape is found by the search itself ------------------------------------------
+# 2c. regression: the defect repaired in /repo c5cb15b (lObjects[iToken - 1] at iToken = 0) -----------
 r = props_c04.check_file(spec(["/*", "/ foo *", "*/"] + BASE))
-expect("lines: `/ foo *` inside /* */ -> notLossless, and the Lean model agrees token by token", any(f["kind"] == "notLossless" for f in r["fails"]) and not r["dis"])
+expect("lines: `/ foo *` inside /* */ is lossless on the repaired code, model agrees", r["status"] == "accepted" and not r["fails"] and not r["dis"])
+real_should = comment.ending_token_should_exist
+comment.ending_token_should_exist = lambda iToken, lObjects, oOptions: oOptions.inside_delimited_comment() and lObjects[iToken].get_value() == "/" and lObjects[iToken - 1].get_value().endswith("*")
+r = props_c04.check_file(spec(["/*", "/ foo *", "*/"] + BASE))
+comment.ending_token_should_exist = real_should
+expect("lines: guard `iToken > 0` removed again -> notLossless at comment + disagreement", any(f["kind"] == "notLossless" and f["site"] == "vhdlFile.classify.comment" for f in r["fails"]) and r["dis"])
 
 # 3. a post pass changes a value ------------------------------------------------------------------
 real_post = VF.post_token_assignments
